@@ -52,31 +52,36 @@ const (
 	XFoldColon // an obs-folded value whose continuation line contains a colon
 )
 
+// FoldIndents are the indentations of a continuation line (RFC 7230 3.2.4: obs-fold = CRLF 1*( SP / HTAB )).
+var FoldIndents = []string{"", " ", "\t", " \t", "\t ", "  ", "\t\t", " \t "}
+
 var NearMissNames = []string{"", "Content-Lengthx", "Xontent-Length", "Content_Length", "Transfer-Encodin", "Ransfer-Encoding", "Content\rLength", "Transfer\rEncoding", "Content-Length-", "Transfer_Encoding",
 	// equal to the framing name only under Unicode case folding (U+017F LATIN SMALL LETTER LONG S folds to s): not a token, not a framing field
 	"Tran\u017ffer-Encoding"}
 
 type Spec struct {
-	Method        string `json:"m"`
-	V10           bool   `json:"v10,omitempty"`
-	KeepAl10      bool   `json:"ka10,omitempty"` // HTTP/1.0 with Connection: keep-alive
-	Target        string `json:"t"`
-	Framing       int    `json:"f"`
-	BodyLen       int    `json:"n"`
-	Part          int    `json:"p,omitempty"`
-	CLName        int    `json:"cn,omitempty"`
-	NearMiss      int    `json:"nm,omitempty"`
-	Extra         int    `json:"x,omitempty"`
-	Close         bool   `json:"close,omitempty"`
-	ID            string `json:"id"`
-	TENameMixed   bool   `json:"temix,omitempty"`
-	TrName        string `json:"trname,omitempty"`          // trailer field name (default X-Tr)
-	Multipart     bool   `json:"multipart,omitempty"`       // FCL only: a multipart/form-data body whose bytes after the closing boundary (epilogue, RFC 2046) fill it up to BodyLen
-	TabFraming    bool   `json:"tab_framing,omitempty"`     // the framing field's value is set off with HTAB instead of SP ("Content-Length:\t5", "Transfer-Encoding:\tchunked")
-	LongChunkSize bool   `json:"long_chunk_size,omitempty"` // chunk sizes are written with 16 hex digits (zero padded)
-	ChunkExt      bool   `json:"chunk_ext,omitempty"`       // chunked framings: every chunk-size line carries a chunk extension (RFC 7230 4.1.1: recipients ignore unknown ones)
-	Decline       bool   `json:"decline,omitempty"`         // Expect framings: carries X-Decline, which the harness engine's ContinueHandler refuses (417); the client sends the body anyway
-	TrUnannounced bool   `json:"tr_unannounced,omitempty"`  // FChunkedTrailer without a Trailer header field: the section must be consumed, its delivery is not demanded
+	Method      string `json:"m"`
+	V10         bool   `json:"v10,omitempty"`
+	KeepAl10    bool   `json:"ka10,omitempty"` // HTTP/1.0 with Connection: keep-alive
+	Target      string `json:"t"`
+	Framing     int    `json:"f"`
+	BodyLen     int    `json:"n"`
+	Part        int    `json:"p,omitempty"`
+	CLName      int    `json:"cn,omitempty"`
+	NearMiss    int    `json:"nm,omitempty"`
+	Extra       int    `json:"x,omitempty"`
+	Close       bool   `json:"close,omitempty"`
+	ID          string `json:"id"`
+	TENameMixed bool   `json:"temix,omitempty"`
+	TrName      string `json:"trname,omitempty"`    // trailer field name (default X-Tr)
+	Multipart   bool   `json:"multipart,omitempty"` // FCL only: a multipart/form-data body whose bytes after the closing boundary (epilogue, RFC 2046) fill it up to BodyLen
+	// FoldFraming k>0: the framing field's value starts on a continuation line (obs-fold right after the colon) indented with FoldIndents[k]
+	FoldFraming   int  `json:"fold_framing,omitempty"`
+	TabFraming    bool `json:"tab_framing,omitempty"`     // the framing field's value is set off with HTAB instead of SP ("Content-Length:\t5", "Transfer-Encoding:\tchunked")
+	LongChunkSize bool `json:"long_chunk_size,omitempty"` // chunk sizes are written with 16 hex digits (zero padded)
+	ChunkExt      bool `json:"chunk_ext,omitempty"`       // chunked framings: every chunk-size line carries a chunk extension (RFC 7230 4.1.1: recipients ignore unknown ones)
+	Decline       bool `json:"decline,omitempty"`         // Expect framings: carries X-Decline, which the harness engine's ContinueHandler refuses (417); the client sends the body anyway
+	TrUnannounced bool `json:"tr_unannounced,omitempty"`  // FChunkedTrailer without a Trailer header field: the section must be consumed, its delivery is not demanded
 }
 
 type Expect struct {
@@ -238,7 +243,9 @@ func Build(s Spec) ([]byte, Expect) {
 			w.WriteString("Expect: 100-continue\r\n")
 			ex.Expect100 = true
 		}
-		if s.TabFraming {
+		if s.FoldFraming > 0 {
+			fmt.Fprintf(&w, "%s:\r\n%s%d\r\n", clName(s.CLName), FoldIndents[s.FoldFraming], len(body))
+		} else if s.TabFraming {
 			fmt.Fprintf(&w, "%s:\t%d\t\r\n", clName(s.CLName), len(body))
 		} else {
 			fmt.Fprintf(&w, "%s: %d\r\n", clName(s.CLName), len(body))
@@ -260,7 +267,9 @@ func Build(s Spec) ([]byte, Expect) {
 		if s.Framing == FChunkedTrailer && !s.TrUnannounced {
 			w.WriteString("Trailer: " + trName + "\r\n")
 		}
-		if s.TabFraming {
+		if s.FoldFraming > 0 {
+			w.WriteString("Transfer-Encoding:\r\n" + FoldIndents[s.FoldFraming] + "chunked\r\n\r\n")
+		} else if s.TabFraming {
 			w.WriteString("Transfer-Encoding:\tchunked\r\n\r\n")
 		} else if s.TENameMixed {
 			w.WriteString("tRaNsFeR-eNcOdInG: chunked\r\n\r\n")
